@@ -164,12 +164,18 @@ fn part_a(acc: &mut Acc, tier: Tier) -> usize {
         let labels = d.output_alt_labels();
         cases.push((di, vec![]));
         for i in 0..labels.len() {
-            cases.push((di, vec![i]));
+            if labels[i] != driver::FULL_OUTPUT {
+                cases.push((di, vec![i]));
+            }
         }
         // every optional top-level member present at once (except a stream and its length, which must agree: see below)
         let all_present: Vec<usize> = labels.iter().enumerate().filter(|(_, l)| l.ends_with("=Some(base)") && l.matches('.').count() == 1).map(|(i, _)| i).collect();
         if all_present.len() > 2 {
             cases.push((di, all_present));
+        }
+        // the fully populated output: every member present at every level, every list with two elements
+        if let Some(full) = labels.iter().position(|l| l == driver::FULL_OUTPUT) {
+            cases.push((di, vec![full]));
         }
         if tier == Tier::Quick {
             // pairs of *presence*: every two optional top-level members set together (two members bound to one wire name,
